@@ -202,14 +202,16 @@ def _ext_guard(v, bi):
     b = v.b
     asref = re.compile(r'AsRef<.*>>::as_ref$|AsRef<.*> for str>::as_ref$|::as_ref$|OsStr::new$')
     for atom, vals, sw in v.guards_ext(bi):
-        if vals != {True}:
+        if vals not in ({True}, {False}):
             continue
         for o in v.pv.peel(v.pv.origins_operand(v.guard_operand((atom, vals, sw)))):
             if o[0] != 'call':
                 continue
             t = v.pv.call_term(o)
             p = (resolved_path(t) or '') + ' ' + (callee_path(t) or '')
-            if 'PartialEq' not in p or not p.rstrip().endswith('::eq') or len(t['args']) != 2:
+            # `ext == Some("typ")` on its true edge, or `ext != Some("typ")` on its false edge
+            want = '::eq' if vals == {True} else '::ne'
+            if 'PartialEq' not in p or not p.rstrip().endswith(want) or len(t['args']) != 2:
                 continue
             sides = [v.pv.peel(v.pv.origins_operand(a)) for a in t['args']]
             has_ext = has_typ = False
@@ -471,6 +473,17 @@ def _increments(v):
                 a, bb_ = s['rv']['a'], s['rv']['b']
                 if bb_['o'] == 'const' and bb_.get('int') == 1 and a['o'] in ('copy', 'move'):
                     out.setdefault(_place_name(v, a['p']), []).append(bi)
+                    # `count + 1` written functionally (a fold state rebuilt with the incremented field): the operand is a temporary copy of a named value
+                    l, hops = a['p']['l'], 0
+                    while not a['p']['proj'] and l not in b.names and hops < 5:
+                        ds = v.pv.defs.get(l, [])
+                        if len(ds) == 1 and ds[0][1] == 'rv' and ds[0][4]['r'] == 'use' and ds[0][4]['op'].get('o') in ('copy', 'move') and not ds[0][4]['op']['p']['proj']:
+                            l = ds[0][4]['op']['p']['l']
+                            hops += 1
+                        else:
+                            break
+                    if hops and l in b.names:
+                        out.setdefault(b.names[l], []).append(bi)
     return out
 
 
